@@ -90,6 +90,9 @@ def check_decimal_like(kind, kw, v, text):
     mag, shown, epart = _plain_decimal(t, sep, places, kind)
     target = abs(V) * scale
     unit = Fraction(1, 10 ** shown) if epart is None else Fraction(10) ** (int(epart) - shown)
+    if places is None and epart is None and "." in t and t.endswith("0"):
+        # automatic decimals show the decimals the value has, none padded: "7.0%" for 0.07 next to "30%" for 0.3 is not what was asked
+        raise Bad("auto_trailing_zero", f"{kind} text {text!r} under automatic decimals ends in a decimal zero")
     if places is None:
         # automatic: no particular count asked, so the number of decimals shown is no licence to drop digits: the text must be the
         # value to 15 significant digits (one more decimal order is allowed for float noise), however small the value is
